@@ -280,7 +280,7 @@ def inline_site(caller, bb, callee):
     caller.setdefault('inlined', []).append(callee['name'])
 
 
-_OPTION_COMBINATORS = {'is_some_and': 2, 'is_none_or': 2, 'map_or': 3, 'map': 2, 'and_then': 2, 'filter': 2}
+_OPTION_COMBINATORS = {'is_some_and': 2, 'is_none_or': 2, 'map_or': 3, 'map': 2, 'and_then': 2, 'filter': 2, 'unwrap_or_else': 2}
 
 
 def desugar_option_combinators(crates, table=None):
@@ -346,6 +346,23 @@ def desugar_option_combinators(crates, table=None):
                 call_dest = dest
                 after = nxt
                 extra = []
+                if comb == 'unwrap_or_else':
+                    # Some(x) => x, None => f()
+                    f['blocks'].append({'st': [{'k': 'assign', 'line': line, 'pl': copy.deepcopy(dest), 'rv': {'k': 'use', 'o': {'k': 'move', 'pl': some_pl}}}],
+                                        'term': {'k': 'goto', 't': nxt}, 'cleanup': False})
+                    if callee[0] == 'fn':
+                        ncall = {'k': 'call', 'line': line, 'exp': False, 'callee': callee[1], 'calleep': callee[2], 'res': callee[1], 'resp': callee[2], 'gen': '[]',
+                                 'unsafe': False, 'local': callee[1] in by_key, 'fnop': None, 'args': [], 'dest': copy.deepcopy(dest), 't': nxt}
+                        nst = []
+                    else:
+                        t_l = new_local('()')
+                        nst = [{'k': 'assign', 'line': line, 'pl': {'l': t_l, 'p': []}, 'rv': {'k': 'agg', 'ak': 'tuple', 'name': '', 'variant': '', 'ops': []}}]
+                        ncall = {'k': 'call', 'line': line, 'exp': False, 'callee': 'core::ops::function::FnOnce::call_once', 'calleep': 'core::ops::function::FnOnce::call_once',
+                                 'res': callee[1], 'resp': callee[2], 'gen': '[]', 'unsafe': False, 'local': True, 'fnop': None,
+                                 'args': [copy.deepcopy(fop), {'k': 'move', 'pl': {'l': t_l, 'p': []}}], 'dest': copy.deepcopy(dest), 't': nxt}
+                    f['blocks'].append({'st': nst, 'term': ncall, 'cleanup': False})
+                    done.append((comb, f['name']))
+                    continue
                 if comb == 'filter':
                     # the predicate sees a reference to the payload; the Option itself is passed on where it holds
                     r_l = new_local('&?')
